@@ -200,9 +200,56 @@ def copies(ctx, rep, clause):
        not alias, 'copies', f'captures {alias}', program.func(f'{PP}:create_annotation').loc(), clause)
 
 
+def empty_vs_absent(ctx, rep, clause):
+    """writer/reader agreement on "no residue modifications": a method that filters the position map into a fresh
+    dict without turning an empty result back into None (slice does) makes `{}` a legal value of the field; equality
+    then must not tell `{}` from None (it compares position by position, where both read as "nothing there")"""
+    program = ctx.program
+    cls = program.cls(PFA)
+    producers = []
+    for name, m in cls.methods.items():
+        for loop in walk_own(m.node):
+            if not (isinstance(loop, ast.For) and norm_stmt(loop.iter) in ('self.internal_mods.items()',
+                                                                           'self._internal_mods.items()')):
+                continue
+            stores = [x for x in ast.walk(loop) if isinstance(x, ast.Assign) and isinstance(x.targets[0], ast.Subscript)
+                      and isinstance(x.targets[0].value, ast.Name)]
+            filtered = any(isinstance(x, ast.If) for x in ast.walk(loop))
+            if not stores or not filtered:
+                continue
+            d = stores[0].targets[0].value.id
+            normalised = False
+            for x in walk_own(m.node):
+                if isinstance(x, ast.If) and d in {y.id for y in ast.walk(x.test) if isinstance(y, ast.Name)} and \
+                        any(isinstance(z, ast.Assign) and norm_stmt(z.targets[0]) == d and
+                            isinstance(z.value, ast.Constant) and z.value.value is None for z in x.body):
+                    normalised = True
+            if not normalised:
+                producers.append(name)
+    eq = cls.methods['__eq__']
+    bad = []
+    for x in walk_own(eq.node):
+        if isinstance(x, ast.Compare) and len(x.ops) == 1 and isinstance(x.ops[0], (ast.Eq, ast.NotEq, ast.Is, ast.IsNot)):
+            sides = {norm_stmt(x.left), norm_stmt(x.comparators[0])}
+            if sides in ({'self.has_internal_mods()', 'other.has_internal_mods()'},
+                         {'self._internal_mods is None', 'other._internal_mods is None'},
+                         {'self.internal_mods is None', 'other.internal_mods is None'}):
+                bad.append(x)
+        if isinstance(x, ast.BinOp) and isinstance(x.op, ast.BitXor) and \
+                {norm_stmt(x.left), norm_stmt(x.right)} == {'self.has_internal_mods()', 'other.has_internal_mods()'}:
+            bad.append(x)
+    ob(rep, 'SIB-empty', eq.fq, 'equality does not tell an empty position map from an absent one',
+       not (bad and producers), f'position maps that may be empty are produced by {producers or "no method"}',
+       f'`{norm_stmt(bad[0]) if bad else ""}` separates annotations by the presence of the position map, but '
+       f'{producers} can leave an empty map where another annotation has None: a modification-free piece cut from a '
+       f'modified peptide no longer equals the same unmodified peptide (the subsequence search misses it)',
+       eq.loc(bad[0]) if bad else eq.loc(), clause)
+
+
 def check(ctx, rep):
     rep.explanation = EXPLANATION
     key_scheme(ctx, rep, 'C20a')
     coverage(ctx, rep, 'C20b')
     hash_eq(ctx, rep, 'C20c')
     copies(ctx, rep, 'C20d')
+    empty_vs_absent(ctx, rep, 'C20b')
